@@ -125,6 +125,8 @@ def run(ctx):
         ('tmp[%s]' % lp in t and 'tmp[-1]' not in t)
     tri(good, bad, r[-1] if r else '_index_of', '_index_of: table[lookup[k]] = k, table[-1] = -1, result = table[values]',
         '_index_of no longer maps lookup[k] -> k with -1 kept (table[lookup] = %s, table[-1] = %s, returns %s)' % (t.get('tmp[%s]' % lp), t.get('tmp[-1]'), rt), io)
+    from obligations.shape_tables import check_index_of
+    check_index_of(ctx, 'C06.A3')
     # ---- A4 features from waveforms
     pp = repo.func(M, '_project_pcs')
     S = Shape(repo, inline_depth=1)
